@@ -49,6 +49,88 @@ Theorem C05_nothing_writable_noop : forall sch ty um rm dst src,
 Proof. exact nothing_writable_noop. Qed.
 Print Assumptions C05_nothing_writable_noop.
 
+(* FRAME.  An accepted write with a non-empty update mask: every position q that the update mask does
+   not reach ([outside_t]: walking q down the nested mask of the normalized update paths leaves the
+   mask before one of its paths ends, and no field on the way is a member of a oneof another member of
+   which the mask passes through) and that the reset mask does not reach ([outside_p]) holds exactly
+   what it held before — for every schema, conformant stored and written messages, any writable mask.
+   (Validate guarantees the update paths lie inside the writable paths, so M ∩ W = M.) *)
+Theorem C05_frame : forall sch ty ups wm rm dst src post src',
+  schema_names_ok sch = true ->
+  conforms sch ty dst = true -> conforms sch ty src = true ->
+  fm_valid sch ty ups = true -> ups <> [] ->
+  merge sch ty (Some ups) wm rm dst src = MOk post src' ->
+  forall q, outside_t sch ty (trie ups) q -> outside_p (trie (mask_paths rm)) q ->
+  get_at q post = get_at q dst.
+Proof. exact frame. Qed.
+Print Assumptions C05_frame.
+
+(* INSIDE.  At every path p of the normalized update mask that the reset mask does not reach, the
+   result holds [expect_at]: nothing if the written message has nothing at p (parents included),
+   otherwise the written value put onto the old one by protobuf FieldMask update semantics. *)
+Theorem C05_inside : forall sch ty ups wm rm dst src post src' p,
+  schema_names_ok sch = true ->
+  conforms sch ty dst = true -> conforms sch ty src = true ->
+  fm_valid sch ty ups = true -> ups <> [] ->
+  valid_or sch ty wm = true -> all_within (Some ups) wm -> wm <> Some [] ->
+  merge sch ty (Some ups) wm rm dst src = MOk post src' ->
+  In p (normalize_paths ups) -> outside_p (trie (mask_paths rm)) p ->
+  get_at p post = expect_at sch ty p dst src.
+Proof. exact inside. Qed.
+Print Assumptions C05_inside.
+
+(* ... which reads: absent in the written message => cleared; a scalar => exactly the written scalar *)
+Theorem C05_scalar_in_mask : forall sch ty p dst src,
+  p <> [] ->
+  (get_at p src = None -> expect_at sch ty p dst src = None) /\
+  (forall s, get_at p src = Some (VS s) -> expect_at sch ty p dst src = Some (VS s)).
+Proof. intros. split; [apply inside_absent_cleared|intros; apply inside_scalar]; auto. Qed.
+Print Assumptions C05_scalar_in_mask.
+
+(* ... repeated fields are appended, map entries overwritten per key, sub-messages merged *)
+Theorem C05_message_and_list_semantics : forall sch ty p dst src,
+  p <> [] ->
+  (forall l, get_at p src = Some (VL l) ->
+     expect_at sch ty p dst src = Some (match get_at p dst with Some (VL dl) => VL (dl ++ l) | _ => VL l end)) /\
+  (forall kv, get_at p src = Some (VMap kv) ->
+     expect_at sch ty p dst src = Some (match get_at p dst with Some (VMap dkv) => VMap (merge_map dkv kv) | _ => VMap kv end)) /\
+  (forall f, get_at p src = Some (VM f) ->
+     expect_at sch ty p dst src =
+     Some (match get_at p dst with
+           | Some (VM fd) => proto_merge sch (sub_type sch (parent_type sch ty p) (last_seg p)) (VM fd) (VM f)
+           | Some _ => proto_merge sch (sub_type sch (parent_type sch ty p) (last_seg p)) (VM []) (VM f)
+           | None => VM f
+           end)).
+Proof.
+  intros. split; [|split]; intros.
+  - apply inside_list_appended; auto.
+  - apply inside_map_overlaid; auto.
+  - apply inside_message_merged; auto.
+Qed.
+Print Assumptions C05_message_and_list_semantics.
+
+(* nil update mask where every field is writable: the result is the written message *)
+Theorem C05_nil_masks_replace : forall sch ty dst sf,
+  merge sch ty None None None dst (VM sf) = MOk (VM sf) (VM sf).
+Proof. exact nil_masks_replace. Qed.
+Print Assumptions C05_nil_masks_replace.
+
+(* RESET.  Whenever Merge runs (update mask not empty-non-nil, something writable), every position at
+   or below a reset path is cleared — whatever the update and writable masks say *)
+Theorem C05_reset_cleared : forall sch ty um wm rs dst src post src' p r,
+  schema_names_ok sch = true -> fm_valid sch ty rs = true ->
+  is_msg dst = true -> is_msg src = true ->
+  merge sch ty um wm (Some rs) dst src = MOk post src' ->
+  um <> Some [] -> wm <> Some [] ->
+  In p rs -> get_at (p ++ r)%list post = None.
+Proof. exact reset_cleared. Qed.
+Print Assumptions C05_reset_cleared.
+
+(* PARTIAL: the frame / inside statements are proved for a non-nil update mask.  For a nil update mask
+   with a non-nil writable mask (dst pruned to the writable fields, then merged) only the
+   correspondence and the oracle C05_ok cover the frame; and that Merge does not panic under valid
+   masks is likewise observed, not proved (the theorems above are about every run that returns). *)
+
 (* ---- the pinned code ---- *)
 Definition tat := "sc.go.test.TestAllTypes".
 Definition dfm := "default_foreign_message".
@@ -135,6 +217,36 @@ Example C05_nonvacuous_write :
            ("map_string_string", VMap [(SStr "a", VS (SStr "x")); (SStr "b", VS (SStr "y"))]);
            ("oneof_default_nested_message", VM [("a", VS (SInt 3))])]).
 Proof. vm_compute. repeat split; reflexivity. Qed.
+
+(* the hypotheses of C05_frame / C05_inside are satisfiable and the conclusions non-trivial *)
+Definition ups0 : list path := [[dfm; "c"]; ["default_int32"]].
+
+Example C05_nonvacuous_frame_hyps :
+  schema_names_ok the_schema = true /\ conforms the_schema tat st0 = true /\ conforms the_schema tat wr0 = true /\
+  fm_valid the_schema tat ups0 = true /\
+  (exists s', merge the_schema tat (Some ups0) None None st0 wr0 =
+              MOk (VM [("default_int32", VS (SInt 100)); (dfm, VM [("c", VS (SInt 5)); ("d", VS (SInt 2))])]) s') /\
+  In [dfm; "c"] (normalize_paths ups0) /\
+  expect_at the_schema tat [dfm; "c"] st0 wr0 = Some (VS (SInt 5)).
+Proof.
+  vm_compute. repeat split; try reflexivity; auto. eexists. reflexivity.
+Qed.
+
+Example C05_nonvacuous_frame_position :
+  outside_t the_schema tat (trie ups0) [dfm; "d"] /\ outside_p (trie []) [dfm; "d"].
+Proof.
+  assert (trie ups0 = NM [(dfm, NM [("c", NM [])]); ("default_int32", NM [])]) as Ht by (vm_compute; reflexivity).
+  rewrite Ht. split; [|vm_compute; exact I].
+  split.
+  - intros k' Hk. unfold nm_lookup in Hk. cbn [alookup nm_children] in Hk.
+    destruct (String.eqb k' dfm) eqn:E1; [apply String.eqb_eq in E1; subst; vm_compute; tauto|].
+    destruct (String.eqb k' "default_int32") eqn:E2; [apply String.eqb_eq in E2; subst; vm_compute; tauto|].
+    congruence.
+  - change (nm_lookup dfm (NM [(dfm, NM [("c", NM [])]); ("default_int32", NM [])])) with (Some (NM [("c", NM [])])).
+    split; [reflexivity|]. split; [|vm_compute; exact I].
+    intros k' Hk. unfold nm_lookup in Hk. cbn [alookup nm_children] in Hk.
+    destruct (String.eqb k' "c") eqn:E1; [apply String.eqb_eq in E1; subst; vm_compute; tauto|]. congruence.
+Qed.
 
 Example C05_nonvacuous_rejected :
   write the_schema tat false (Some [[dfm; "c"]]) None (Some [[dfm]]) None st0 wr0 = WErr code_invalid_argument /\
